@@ -93,6 +93,10 @@ def program_text(reqs, tail):
         elif op[0] == "wait_pair":
             r, k = op[1], op[2]
             lines.append(f"wait_all @{3 * r}[{OK_FIELDS * k}:{OK_FIELDS * (k + 1)}]")
+        elif op[0] == "wait_slice":
+            # a slice that is not aligned to pair boundaries (array entries lo .. hi-1)
+            r, lo, hi = op[1], op[2], op[3]
+            lines.append(f"wait_all @{3 * r}[{lo}:{hi}]")
         elif op[0] == "wait_any":
             r = op[1]
             lines.append(f"wait_any @{3 * r}[0:{OK_FIELDS * reqs[r]['n']}]")
@@ -290,6 +294,7 @@ def scenarios(tier):
     M = lambda role, sock, n: {"role": role, "sock": sock, "tp": "M", "n": n, "qids": []}  # noqa
     S = []
     S.append({"name": "recv_keep_2", "reqs": [K("recv", 0, 2, [0, 1])], "tail": [["req", 0], ["wait_all", 0]]})
+    S.append({"name": "recv_keep_2_unaligned_wait", "reqs": [K("recv", 0, 2, [0, 1])], "tail": [["req", 0], ["wait_slice", 0, 5, 13], ["wait_all", 0]]})
     S.append({"name": "create_keep_2_wait_pairs", "reqs": [K("create", 0, 2, [0, 1])], "tail": [["req", 0], ["wait_pair", 0, 0], ["wait_pair", 0, 1]]})
     S.append({"name": "two_creates_same_socket", "reqs": [K("create", 0, 1, [0]), K("create", 0, 2, [1, 2])],
               "tail": [["req", 0], ["req", 1], ["wait_all", 1], ["wait_all", 0]]})
